@@ -251,3 +251,21 @@ PROPS["C04"] = {
         {"pkg": "verifx/tree", "run": "^TestC04RegressionStaleVerify$", "all": {"shards": 1, "timeout": 120}},
     ],
 }
+
+PROPS["C15"] = {
+    "title": "Governance accounting: stakes, votes, rankings and names stay consistent",
+    "level": "exploration",
+    "technique": "model-based stateful PBT (rapid) on virtual block heights: reference model of stakes/votes/names written from the property's rules, compared with the stored governance data after every block, plus invariants on the stored data itself (sums, tallies, ranking order, tie-break stability, memory-vs-state ranking)",
+    "level_text": ("Generated histories (2-10 blocks x 1-5 transactions by 2-5 accounts) of stake, partial/full unstake, producer votes over overlapping candidate sets, parameter votes, name create/update and transfers, executed one transaction at a time through the real "
+                   "executor on block heights that jump by 1 .. 2x86400 so that lock periods are straddled at their exact boundaries, under fork versions 0..5. Every accept/refuse decision must equal the reference model's; after every block: each stake and vote record equals the model, "
+                   "staking total = sum of stakes = balance of the staking account, no vote exceeds its stake, each tally = sum of the recorded votes for the candidate, ranking lists each candidate once in non-increasing order with a stable order among ties, unstake credits exactly the requested amount, "
+                   "the in-memory voting power ranking equals the one rebuilt from the stored state, names have exactly the model's owner."),
+    "level_note": "Virtual heights: blocks are executed on a block state with a drawn block number and committed to the state store only (the 86400-block delays are otherwise unreachable). Parameter votes use values that leave staking minimum and name price unchanged when they pass, so the model needs no parameter tracking; gas price and bp count vary freely. Plain transfers to the staking account are not generated (they are legal and would make 'balance = total stake' false by construction).",
+    "rule": ("a case = configuration + history; non-trivial = the history contains a partial unstake that shrinks at least one existing vote, or a tie between candidates with non-zero tally; distinct = distinct (configuration, history)."),
+    "assumptions": ["stub VM not involved (governance is native Go)", "memorydb is a correct store"],
+    "units": [
+        {"pkg": "verifx/c15", "run": "^TestC15Governance$",
+         "quick": {"checks": 150, "shards": 12, "timeout": 400},
+         "thorough": {"checks": 4000, "shards": 16, "timeout": 1700}},
+    ],
+}
